@@ -104,8 +104,8 @@ func run(c *core.Ctx) {
 
 	// random: larger slices, repeated values, mostly valid positions
 	fns := []string{"Insert", "InsertSlice", "Remove", "RemoveSlice", "InsertSlice", "RemoveSlice", "Fill", "Reverse", "Concat", "Clone", "Grow"}
-	for i := c.N(300, 20000, 6000); i > 0; i-- {
-		n := c.Rng.Size(c.N(300, 1500, 600))
+	for i := c.N(300, 4000, 6000); i > 0; i-- {
+		n := c.Rng.Size(c.N(300, 800, 600))
 		sp := 0
 		if c.Rng.Chance(75) {
 			sp = c.Rng.Size(24)
